@@ -103,7 +103,7 @@ func (s *Store) Served(d digest.Digest, want []byte) (bool, error) {
 
 // Ack is one acknowledged upload.
 type Ack struct {
-	Obj  Obj
-	At   time.Time // virtual time at which Put returned nil
-	Seq  int       // order of acknowledgement
+	Obj Obj
+	At  time.Time // virtual time at which Put returned nil
+	Seq int       // order of acknowledgement
 }
